@@ -6,7 +6,11 @@
 package simruntime
 
 import (
+	"reflect"
 	"runtime"
+	"sort"
+	"sync"
+	"time"
 
 	"verifsim/sim/rt"
 )
@@ -40,7 +44,6 @@ var (
 	Version        = runtime.Version
 	GOROOT         = runtime.GOROOT
 	NumCgoCall     = runtime.NumCgoCall
-	SetFinalizer   = runtime.SetFinalizer
 	KeepAlive      = runtime.KeepAlive
 	LockOSThread   = runtime.LockOSThread
 	UnlockOSThread = runtime.UnlockOSThread
@@ -61,3 +64,94 @@ func NumGoroutine() int { return rt.LiveTasks() }
 
 // Goexit ends the calling task.
 func Goexit() { runtime.Goexit() }
+
+// ---- finalizers ----
+//
+// Garbage collection is a source of nondeterminism like the scheduler: when a cycle happens
+// decides when a finalizer runs. In a simulated run SetFinalizer installs a trampoline as the
+// real finalizer; it only files (object, finalizer) in a queue. A cycle of the simulated
+// machine (rt.SetGCHook: at tape-chosen scheduling points) runs the real collector to completion,
+// waits until the runtime's finalizer goroutine has worked off what became due, and starts the
+// filed finalizers of this run as tasks, in registration order. What is unreachable at a given
+// scheduling point is a property of the program state, so the outcome replays.
+
+type dueFinalizer struct {
+	seq   uint64
+	epoch uint64
+	party string
+	run   func()
+}
+
+var (
+	finMu   sync.Mutex
+	finDue  []dueFinalizer
+	finSeq  uint64
+	finHook uint64 // run epoch for which the GC hook is installed
+)
+
+// SetFinalizer is runtime.SetFinalizer; inside a simulated run the finalizer is started by the
+// simulator's garbage-collection cycles.
+func SetFinalizer(obj any, finalizer any) {
+	if !rt.Active() || finalizer == nil || rt.RunEpoch() == 0 {
+		runtime.SetFinalizer(obj, finalizer)
+		return
+	}
+	fv := reflect.ValueOf(finalizer)
+	ot := reflect.TypeOf(obj)
+	if fv.Kind() != reflect.Func || fv.Type().NumIn() != 1 || !ot.AssignableTo(fv.Type().In(0)) {
+		runtime.SetFinalizer(obj, finalizer) // let the runtime report the misuse
+		return
+	}
+	finSeq++
+	seq, epoch := finSeq, rt.RunEpoch()
+	party := ""
+	if cur := rt.Current(); cur != nil {
+		party = cur.Party
+	}
+	tramp := reflect.MakeFunc(reflect.FuncOf([]reflect.Type{ot}, nil, false), func(args []reflect.Value) []reflect.Value {
+		o := args[0]
+		finMu.Lock()
+		finDue = append(finDue, dueFinalizer{seq: seq, epoch: epoch, party: party, run: func() { fv.Call([]reflect.Value{o}) }})
+		finMu.Unlock()
+		return nil
+	})
+	runtime.SetFinalizer(obj, tramp.Interface())
+	rt.Reach("runtime.finalizer-registered")
+	if finHook != epoch {
+		finHook = epoch
+		rt.SetGCHook(collect)
+	}
+}
+
+type sentinel struct{ _ [16]byte }
+
+// collect is one garbage-collection cycle of the simulated machine.
+func collect() {
+	rt.Reach("runtime.gc-cycle")
+	for round := 0; round < 2; round++ {
+		done := make(chan struct{})
+		s := new(sentinel)
+		runtime.SetFinalizer(s, func(*sentinel) { close(done) })
+		s = nil
+		runtime.GC()
+		runtime.GC()
+		select {
+		case <-done:
+		case <-time.After(5 * time.Second):
+			// the runtime did not get to the sentinel: go on with what is filed (never a verdict by itself)
+		}
+	}
+	finMu.Lock()
+	due := finDue
+	finDue = nil
+	finMu.Unlock()
+	epoch := rt.RunEpoch()
+	sort.Slice(due, func(i, j int) bool { return due[i].seq < due[j].seq })
+	for _, d := range due {
+		if d.epoch != epoch {
+			continue // an object of an earlier run
+		}
+		rt.Reach("runtime.finalizer-started")
+		rt.GoParty(d.party, "finalizer", d.run)
+	}
+}
